@@ -120,3 +120,62 @@ Definition run_nextnum (l : list N) : list N :=
       end
   | [] => [9]
   end.
+
+(* ------------------------------------------------------------------ *)
+(* ChannelUpdater batching (C12): [bs; (kind v)*] -> delivered          *)
+(* ------------------------------------------------------------------ *)
+From XcpModel Require Import Updater.
+Definition run_chan (l : list N) : list N :=
+  match l with
+  | bs :: r => encode_updates (chan_deliver bs 0 (decode_updates r))
+  | [] => [9]
+  end.
+
+(* ------------------------------------------------------------------ *)
+(* metadata / nodes (C10 C14)                                           *)
+(* ------------------------------------------------------------------ *)
+From XcpModel Require Import Meta.
+
+Fixpoint decode_pairs (n : nat) (l : list N) : list (N * N) * list N :=
+  match n, l with
+  | S k, a :: b :: r => let '(x, rest) := decode_pairs k r in ((a, b) :: x, rest)
+  | _, _ => ([], l)
+  end.
+
+Definition decode_meta (l : list N) : meta * list N :=
+  match l with
+  | mode :: uid :: gid :: atm :: mtm :: nx :: r =>
+      let '(xs, rest) := decode_pairs (N.to_nat nx) r in (mkMeta mode uid gid atm mtm xs, rest)
+  | _ => (mkMeta 0 0 0 0 0 [], [])
+  end.
+
+Definition encode_action (a : fin_action) : list N :=
+  match a with
+  | FChown u g => [0; u; g] | FSetxattr k v => [1; k; v] | FChmod m => [2; m; 0]
+  | FUtimens a m => [3; a; m] | FFsync => [4; 0; 0]
+  end.
+
+(* [np nt ow fs] ++ meta src ++ meta dst -> [mode uid gid atime mtime] ++ actions *)
+Definition run_finalise (l : list N) : list N :=
+  match l with
+  | np :: nt :: ow :: fs :: r =>
+      let c := mkFin (negb (np =? 0)) (negb (nt =? 0)) (negb (ow =? 0)) (negb (fs =? 0)) in
+      let '(src, r1) := decode_meta r in
+      let '(dst, _) := decode_meta r1 in
+      let d := finalise c src dst in
+      [m_mode d; m_uid d; m_gid d; m_atime d; m_mtime d] ++ flat_map encode_action (finalise_actions c src)
+  | _ => [9]
+  end.
+
+(* [umask; type; mode; rdev; no_clobber; exists] -> [ok; nactions; type; mode; rdev] *)
+Definition run_node (l : list N) : list N :=
+  match l with
+  | um :: ty :: mo :: rd :: nc :: ex :: _ =>
+      match special_worker (negb (nc =? 0)) (negb (ex =? 0)) um (mkNode ty mo rd) with
+      | None => [0]
+      | Some acts =>
+          let n := copy_node um (mkNode ty mo rd) in
+          [1; N.of_nat (length acts); n_type n; n_mode n; n_rdev n]
+      end
+  | _ => [9]
+  end.
